@@ -12,10 +12,10 @@ PLAN = {
                 gen_q=("continue,stop,cancel,single,empty,waves,storm,wait", 60), gen_t=("continue,stop,cancel,single,empty,waves,storm,wait", 1500)),
     "C07": dict(mc_q=[("seq", 3, 1, 2, True), ("gated", 3, 2, 2, True), ("conc", 2, 2, 2, False)],
                 mc_t=[("seq", 4, 1, 3, True), ("gated", 3, 2, 2, True), ("gated", 4, 3, 1, True), ("conc", 3, 2, 2, False)],
-                gen_q=("continue,waves,storm,wait", 100), gen_t=("continue,waves,storm,wait", 3000)),
+                gen_q=("continue,waves,storm,wait,rebudget", 90), gen_t=("continue,waves,storm,wait,rebudget", 2600)),
     "C08": dict(mc_q=[("gated", 3, 2, 1, True), ("conc", 2, 2, 2, False)],
                 mc_t=[("gated", 4, 3, 1, True), ("conc", 3, 2, 2, False), ("conc", 3, 3, 1, False)],
-                gen_q=("barrier,continue,rerun", 80), gen_t=("barrier,continue,stop,rerun", 1500)),
+                gen_q=("barrier,continue,rerun,backoff", 70), gen_t=("barrier,continue,stop,rerun,backoff", 1200)),
     "C09": dict(mc_q=[("seq", 3, 1, 2, True), ("gated", 3, 2, 2, True), ("gatedcancel", 2, 2, 1, True), ("conc", 2, 2, 2, False)],
                 mc_t=[("seq", 4, 1, 2, True), ("gated", 4, 3, 1, True), ("gated", 3, 2, 2, True), ("gatedcancel", 3, 2, 2, True), ("conc", 3, 2, 2, False)],
                 gen_q=("stop,cancel,bigstop", 100), gen_t=("stop,cancel,bigstop", 2500)),
@@ -24,11 +24,11 @@ PLAN = {
                 gen_q=("cancel", 150), gen_t=("cancel", 4000)),
     # batch parts of engine-family properties
     "C02": dict(mc_q=[("seq", 2, 1, 3, True), ("gated", 2, 2, 2, True)], mc_t=[("seq", 3, 1, 4, True), ("gated", 3, 2, 3, True)],
-                gen_q=("continue,stop,storm,waves", 60), gen_t=("continue,stop,storm,waves", 1500)),
+                gen_q=("continue,stop,storm,waves,rebudget", 60), gen_t=("continue,stop,storm,waves,rebudget", 1500)),
     "C04": dict(mc_q=[("seq", 2, 1, 1, True)], mc_t=[("seq", 3, 1, 2, True), ("gated", 2, 2, 1, True)],
                 gen_q=("continue", 40), gen_t=("continue,stop", 800)),
-    "C17": dict(mc_q=[("eres", 2, 2, 2, True)], mc_t=[("eres", 3, 2, 2, True), ("seq", 3, 1, 2, True)],
-                gen_q=("continue,stop", 60), gen_t=("continue,stop", 1500)),
+    "C17": dict(mc_q=[("eres", 2, 2, 2, True), ("gatedcancel", 2, 2, 1, True)], mc_t=[("eres", 3, 2, 2, True), ("seq", 3, 1, 2, True), ("gatedcancel", 3, 2, 2, True)],
+                gen_q=("continue,stop,cancel", 60), gen_t=("continue,stop,cancel", 1500)),
     "C18": dict(mc_q=[("seq", 2, 1, 1, True), ("empty", 0, 2, 1, True)], mc_t=[("seq", 3, 1, 2, True), ("empty", 0, 2, 1, True), ("gated", 2, 2, 1, True)],
                 gen_q=("empty,single,continue", 50), gen_t=("empty,single,continue,stop", 800)),
 }
